@@ -91,3 +91,36 @@ VARIANTS = [
       "            if d < min_down:\n                min_down = d",
       "silent"),
 ]
+
+VARIANTS += [
+    V("window-skips-first-box", E1,
+      "    bin_start: int = 0  # the index of the first object",
+      "    bin_start: int = 1  # the index of the first object", "fire",
+      "D14.4", "found by the mutation survey: box 0 would never block"),
+    V("move-called-with-swapped-window", E1,
+      "        while __move_down(y, bin_start, i) or __move_left(y, "
+      "bin_start, i):",
+      "        while __move_down(y, i, bin_start) or __move_left(y, "
+      "bin_start, i):", "fire", "D14.4"),
+]
+
+VARIANTS += [
+    V("enc2-window-not-extended", E2,
+      "                bin_ends[item_bin - 1] = i + 1  # index after last "
+      "item in bin\n", "", "fire", "D14.4",
+      "found by the mutation survey: later items of the bin would not see "
+      "the box just placed"),
+    V("enc2-new-bin-window-empty", E2,
+      "            bin_ends[bin_id] = i + 1  # set the end index",
+      "            bin_ends[bin_id] = i  # set the end index", "fire",
+      "D14.4"),
+    V("enc2-first-window-skips-box-zero", E2, "    bin_starts[0] = 0\n",
+      "    bin_starts[0] = 1\n", "fire", "D14.4"),
+    V("enc2-move-window-swapped", E2,
+      "            while __move_down(y, item_bin, int(bin_start), "
+      "int(bin_end), i) \\",
+      "            while __move_down(y, item_bin, int(bin_end), "
+      "int(bin_start), i) \\", "fire", "D14.4"),
+    V("silent-enc2-initial-window-end", E2, "    bin_ends[0] = 0\n",
+      "    bin_ends[0] = -1\n", "silent", "", "an empty window either way"),
+]
